@@ -210,7 +210,7 @@ fn hostile_text(seed: u64, idx: u64) -> (String, &'static str) {
     let mut rng = crate::util::Rng::for_case(seed, "c04proc", idx);
     match idx % 6 {
         0 => {
-            let fam = (idx / 6) as usize % 18;
+            let fam = (idx / 6) as usize % 22;
             let d = NEST_DEPTHS[(idx / 108) as usize % NEST_DEPTHS.len()];
             (nesting(fam, d).unwrap_or_default(), "nesting")
         }
